@@ -703,7 +703,9 @@ func (server *Server) registerCoreExecutors() {
 			return nil, err
 		}
 
-		msg, err := server.userCommandHandler.ZRange(conn, key, start, stop, opt)
+		// The indexes of ZREVRANGE count from the highest score: the reverse range [start, stop]
+		// is the forward range [-1-stop, -1-start], returned in reverse order.
+		msg, err := server.userCommandHandler.ZRange(conn, key, -1-stop, -1-start, opt)
 		if err != nil {
 			return msg, err
 		}
@@ -714,6 +716,9 @@ func (server *Server) registerCoreExecutors() {
 		}
 
 		if opt.WITHSCORES {
+			if array.Size()%2 != 0 {
+				return nil, errors.New("invalid member and score pairs")
+			}
 			return NewArrayMessageWithArray(array.ReverseBy(2)), nil
 		}
 		return NewArrayMessageWithArray(array.Reverse()), nil
@@ -779,6 +784,9 @@ func (server *Server) registerCoreExecutors() {
 		}
 
 		if opt.WITHSCORES {
+			if array.Size()%2 != 0 {
+				return nil, errors.New("invalid member and score pairs")
+			}
 			return NewArrayMessageWithArray(array.ReverseBy(2)), nil
 		}
 		return NewArrayMessageWithArray(array.Reverse()), nil
